@@ -52,6 +52,7 @@ def selftest(run):
 def points(nin, nout):
     pts = [p for p in c01.points_for(nin, nout) if not p[0].startswith('wit')]
     pts.append(('amount', 5000000000, AMOUNTS))
+    pts.append(('dupin', False, [True]))
     pts.append(('sclen', 25, SC_LENS + ['shape%d' % i for i in range(len(SC_SHAPED))]))
     return pts
 
@@ -83,8 +84,12 @@ class Bip143(Family):
         from bitcoin.core.script import SignatureHash, SIGVERSION_WITNESS_V0, CScript
         s = dict(case['set'])
         amount = s.pop('amount', 5000000000)
+        dupin = s.pop('dupin', False)
         sclen = s.pop('sclen', 25)
         m = C.tx_from_case({'nin': case['nin'], 'nout': case['nout'], 'set': s})
+        if dupin and len(m['vin']) >= 2:
+            # two inputs spending the same outpoint: hashPrevouts still lists the outpoint twice
+            m['vin'][-1]['hash'], m['vin'][-1]['n'] = m['vin'][0]['hash'], m['vin'][0]['n']
         sc = SC_SHAPED[int(sclen[5:])] if isinstance(sclen, str) else C.fill(sclen, 0x76)
         cs = CScript(sc)
         hts = range(256) if case['hts'] == 'all' else HT_SMALL
@@ -92,6 +97,13 @@ class Bip143(Family):
         for mut in (False, True):
             tx = C.lib_tx(m, mutable=mut)
             before = c03.snapshot(tx)
+            # calls that cannot succeed (input index out of range, amount missing or out of int64) come first: whatever
+            # they raise, nothing of them may leak into the following valid calls
+            for bad in (dict(idx=len(m['vin']), amount=amount), dict(idx=0, amount=None), dict(idx=0, amount=1 << 63)):
+                try:
+                    SignatureHash(cs, tx, bad['idx'], 1, amount=bad['amount'], sigversion=SIGVERSION_WITNESS_V0)
+                except Exception:  # noqa
+                    pass
             for idx in range(len(m['vin'])):
                 for ht in hts:
                     want = SH.bip143(sc, m, idx, ht, amount)
